@@ -103,11 +103,11 @@ func init() {
 			}
 		} else {
 			runs = []WorldRun{
-				{World: "book", Thorough: b(4, 2, 3), OneEnv: true, MenuFilter: c14Filter},
+				{World: "book", Thorough: b(4, 2, 2), OneEnv: true, MenuFilter: c14Filter},
 				{World: "book", Thorough: b(3, 2, 3), OneEnv: true},
 				{World: "book", Thorough: b(3, 2, 3), EnvFilter: c14FF, MenuFilter: c14Filter},
 				{World: "book", Thorough: b(2, 2, 3)},
-				{World: "bookdisk", Thorough: b(3, 2, 3), OneEnv: true},
+				{World: "bookdisk", Thorough: b(3, 2, 3), OneEnv: true, MenuFilter: c14CoreOnly},
 				{World: "bookdisk", Thorough: b(2, 2, 3)},
 				{World: "bookdisk", Thorough: b(3, 3, 2), OneEnv: true, MenuFilter: c14CoreOnly}, // three transactions in ONE block
 				{World: "book", Thorough: b(3, 3, 2), OneEnv: true, MenuFilter: c14Filter},
